@@ -3,7 +3,7 @@
 # Re-confirms a seeded change in its scratch worktree /tmp/wt-<ID>: (1) existing suite passes with the
 # change, (2) the demo fails with it, (3) the demo passes without it. Writes /tmp/out-<ID>/<X>.confirm
 id="$1"; x="$2"; feats="${3:-}"
-r="${ROUND:-}"; wt=/tmp/wt$r-$id; out=/tmp/out$r-$id
+r="${ROUND:-}"; wt=${WT:-/tmp/wt$r-$id}; out=/tmp/out$r-$id
 cd $wt || exit 2
 git checkout -q -- . ; rm -rf tevec/tests
 git apply $out/$x.patch || { echo "apply failed" > $out/$x.confirm; exit 1; }
